@@ -16,6 +16,7 @@
 -/
 import Avra.Model.Build
 import Avra.Lemmas.Iter
+import Avra.Lemmas.Fuel
 namespace Avra.Props.C16
 open Avra Avra.Model
 
@@ -361,9 +362,21 @@ theorem symAt_no_oof (c : Ctx) : ∀ (k : Nat) (n : Str), symAt c k n ≠ .oof :
 theorem eval_no_oof (c : Ctx) (e : Expr) : eval c e ≠ .oof :=
   evalWith_no_oof _ (symAt_no_oof c maxSymbolDepth) e
 
-/-- the one unproved ingredient: the fuel handed to the expression parser (`exprFuel`, linear in
-    the length of the line) always suffices.  No correspondence run has ever seen it fail. -/
+/-- the fuel handed to the expression parser (`exprFuel`, linear in the length of the line) and
+    to the operand lists always suffices -/
 def FuelAdequate : Prop := ∀ s : Str, (parseLine s).2 = false
+
+/-- ... and it does: `Lemmas.Fuel.line_no_oof` (what a rule leaves over is never longer than what
+    it got; with `n * K` fuel every input shorter than `n` parses without running out, `K` = the
+    size of the regenerated operator tables + 8; every list element costs a comma) -/
+theorem fuel_adequate : FuelAdequate := by
+  intro s
+  have h := Avra.Lemmas.Fuel.line_no_oof s
+  unfold parseLine
+  split
+  · rfl
+  · rfl
+  · rename_i heq; exact absurd heq h
 
 def NoOof {α : Type} (r : Out α) : Prop := r ≠ .oof
 
@@ -763,7 +776,7 @@ theorem buildFromParsed_no_oof (hF : FuelAdequate) (fs : Fs) (st : PState) : NoO
     the line loop ends within "number of lines + 1" iterations, includes within
     MAX_INCLUDE_DEPTH, macro expansion within MAX_MACRO_DEPTH, symbol expansion within
     MAX_SYMBOL_DEPTH (`eval_no_oof`), and the three passes are structural recursions. -/
-theorem build_always_answers (hF : FuelAdequate) (fs : Fs) (src path : Str) (incs : List Str) :
+theorem build_answers_given_fuel (hF : FuelAdequate) (fs : Fs) (src path : Str) (incs : List Str) :
     (∃ b, buildStr fs src = .ok b) ∨ (∃ e, buildStr fs src = .error e) := by
   have hp := (build_never_panics fs src path incs).1
   have ho : NoOof (buildStr fs src) := by
@@ -775,6 +788,31 @@ theorem build_always_answers (hF : FuelAdequate) (fs : Fs) (src path : Str) (inc
       | (simp at h; done)
       | (rename_i heq; exact parseStr_no_oof hF _ _ _ heq)
   cases hb : buildStr fs src with
+  | ok b => exact Or.inl ⟨b, rfl⟩
+  | error e => exact Or.inr ⟨e, rfl⟩
+  | panic s => exact absurd hb (hp s)
+  | oof => exact absurd hb ho
+
+/-- **the model always answers**: for every source text, file system and include-directory list
+    `buildStr` returns a result or an error — never a panic, never "out of fuel" -/
+theorem build_always_answers (fs : Fs) (src path : Str) (incs : List Str) :
+    (∃ b, buildStr fs src = .ok b) ∨ (∃ e, buildStr fs src = .error e) :=
+  build_answers_given_fuel fuel_adequate fs src path incs
+
+/-- the same for a build from a file: whatever the file system holds (missing files, include
+    cycles, directories in place of files), `buildFile` returns a result or an error -/
+theorem build_file_always_answers (fs : Fs) (src path : Str) (incs : List Str) :
+    (∃ b, buildFile fs path incs = .ok b) ∨ (∃ e, buildFile fs path incs = .error e) := by
+  have hp := (build_never_panics fs src path incs).2
+  have ho : NoOof (buildFile fs path incs) := by
+    intro h
+    unfold buildFile at h
+    split at h
+    all_goals first
+      | (exact buildFromParsed_no_oof fuel_adequate _ _ h)
+      | (simp at h; done)
+      | (rename_i heq; exact parseFile_no_oof fuel_adequate _ _ _ _ heq)
+  cases hb : buildFile fs path incs with
   | ok b => exact Or.inl ⟨b, rfl⟩
   | error e => exact Or.inr ⟨e, rfl⟩
   | panic s => exact absurd hb (hp s)
